@@ -138,7 +138,7 @@ def selftest(pid, repo, relevant_keys, known_keys, baseline_keys):
             out["details"].append({"id": iid, "status": "reported" if new else "MISSED", "keys": new[:4], "edit": it["edit"][:100]})
         else:
             out["benign_total"] += 1
-            low = [ru for ru in props.PROPS[pid] if counts is not None and below_floor(counts, floors, ru)]
+            low = [ru for ru in props.PROPS[pid] if counts is not None and status == "analysed" and below_floor(counts, floors, ru)]
             if low and not new:
                 out["failures"].append("%s (behaviour-preserving) leaves %s below its floor: the check would answer INCONCLUSIVE" % (iid, low))
                 out["details"].append({"id": iid, "status": "INCONCLUSIVE", "rules_below_floor": low})
